@@ -1,6 +1,5 @@
 (* all 38 x 38 ordered pairs of named point groups: the set of symmetry
-   elements Orientation.dot uses for two symmetries is the needed one exactly
-   when the pair is not (trigonal|hexagonal) x cubic *)
+   elements Orientation.dot uses for two symmetries is the needed one *)
 From Coq Require Import List Bool String Lia.
 From Verif Require Import Groups GroupFacts SymDotK TwoSymRow00 TwoSymRow01 TwoSymRow02 TwoSymRow03 TwoSymRow04 TwoSymRow05 TwoSymRow06 TwoSymRow07 TwoSymRow08 TwoSymRow09 TwoSymRow10 TwoSymRow11 TwoSymRow12 TwoSymRow13 TwoSymRow14 TwoSymRow15 TwoSymRow16 TwoSymRow17 TwoSymRow18 TwoSymRow19 TwoSymRow20 TwoSymRow21 TwoSymRow22 TwoSymRow23 TwoSymRow24 TwoSymRow25 TwoSymRow26 TwoSymRow27 TwoSymRow28 TwoSymRow29 TwoSymRow30 TwoSymRow31 TwoSymRow32 TwoSymRow33 TwoSymRow34 TwoSymRow35 TwoSymRow36 TwoSymRow37.
 
@@ -49,12 +48,11 @@ Proof.
   - exact two_sym_row_37.
 Qed.
 
-Theorem two_sym_decided : forall g h, In g groups -> In h groups ->
-  two_sym_ok g h = negb (two_sym_bad g h).
+Theorem two_sym_decided : forall g h, In g groups -> In h groups -> two_sym_ok g h = true.
 Proof.
   intros g h Hg Hh. apply In_nth_error in Hg. destruct Hg as [i Hi].
   assert (Hlt : (i < 38)%nat).
   { rewrite <- group_count. apply nth_error_Some. rewrite Hi. discriminate. }
   pose proof (two_sym_rows i Hlt) as H. unfold two_sym_row in H. rewrite Hi in H.
-  rewrite forallb_forall in H. apply eqb_prop. apply H. exact Hh.
+  rewrite forallb_forall in H. apply H. exact Hh.
 Qed.
